@@ -51,6 +51,24 @@ func expOf(lm uint, a *big.Int) *big.Int {
 }
 
 func genC01(g *Rng, tier string, emit func(Op)) {
+	// (last, so that the classes below do not depend on what it draws) the negated oversized value,
+	// in every run
+	defer func() {
+		kp := fixedKey("k1024a", false)
+		for _, bits := range []int{257, 300, 1000} {
+			x := g.exactBits(bits)
+			cred := issueCred(kp, randSecret(g), []*big.Int{x, g.bits(60)})
+			ctx, nonce := g.bits(256), g.bits(80)
+			p, err := cred.CreateDisclosureProof([]int{1}, nil, false, ctx, nonce)
+			if err != nil {
+				panic(err)
+			}
+			t := proofDTree(p)
+			emit(verifyDOp(kp.id, cloneTree(t), ctx, nonce, false, "oversized-disclosed-honest", "accept").with("direct", true))
+			t["a_disclosed"].(T)["1"] = I(new(big.Int).Neg(x))
+			emit(verifyDOp(kp.id, t, ctx, nonce, false, "negated-oversized-disclosed", "reject").with("direct", true).with("fkey", "C01/negated-oversized-disclosed"))
+		}
+	}()
 	attributeHashThresholdOps(g, "C01/attribute-hash-threshold", emit)
 	for _, o := range highIndexSplitOps(g, fixedKey("k1024a", false), "C01/split-at-high-index") {
 		emit(o)
